@@ -20,13 +20,13 @@ CHECKS = {
    note="Trusted: PySem and SRE2SMT translators (self-tested against the real closures / CPython re on every run), z3 5.1.0 and cvc5 1.0.3 agreeing, z3 4.11.2 as ground oracle. Known findings listed in KNOWN_FINDINGS.txt.",
    design="§3 C05"),
  "C09": dict(level="translation_validation", technique="translation validation: SMT (z3) equivalence of first-order encodings of the formula before/after the real rewrite, over all tree structures",
-   text="Translation validation: for each of ~300 (quick) / ~6000 (thorough) enumerated formula programs the real rewrite is run and z3 proves "
+   text="Translation validation: for each of ~700 (quick) / ~7000 (thorough) enumerated formula programs (parsed texts incl. Boolean structure inside SMT atoms, and ASTs built without the parser: n-ary connectives, name clashes, one name over two nonterminals) the real rewrite is run and z3 proves "
         "enc(F) <=> enc(rewrite F) over all first-order structures (so over all trees, all predicate interpretations; SMT atoms stay interpreted). "
-        "The formula family is enumerated, the tree is quantified by the solver. A raise is a violation; a sat answer only with a concrete witness tree.",
+        "The formula family is enumerated, the tree is quantified by the solver. A raise is a violation; a sat or unknown answer only with a concrete witness tree judged by the real evaluate() or by the reference semantics.",
    note="Trusted: FOL encoder (checks/fol.py), z3 4.11.2 + z3 5.1.0 re-check. Outside: formula shapes outside the family; formulas with concrete tree arguments.",
    design="§3 C09"),
  "C07": dict(level="translation_validation", technique="translation validation: SMT (z3) equivalence of the first-order encodings of parse_isla(text) and parse_isla(unparse_isla(.)) over all tree structures, plus concrete equality/idempotence side conditions",
-   text="Translation validation: for each enumerated constraint text (core family, simplified-syntax family, one text per SMT-LIB operator token, "
+   text="Translation validation: for each enumerated constraint text (core family, simplified-syntax family, one text per SMT-LIB operator token and small bound of the indexed regex operators, optional match-expression parts, "
         "escape-character match expressions) F and F2 = parse(unparse(F)) are produced by the real code and z3 proves enc(F) <=> enc(F2) for all trees; "
         "the property's concrete clauses (re-parse accepted, F2 == F, unparse(F2) == unparse(F)) are checked per program.",
    note="Trusted: FOL encoder, z3. Outside: literal contents are enumerated (Z3's C printer / ANTLR cannot be made symbolic); texts outside the family. Ten known findings (KNOWN_FINDINGS.txt).",
@@ -38,14 +38,14 @@ CHECKS = {
    note="Trusted: NumLang/Canon regex builders (self-tested against Python int() on every run), z3 5.1.0 (cvc5 1.0.3 cross-checks where it answers within 1.2 s). Precondition: L(R) contains numerals only. Known finding: symmetric full range.",
    design="§3 C15"),
  "C10": dict(level="other", technique="CrossHair (z3): exhaustive solver-driven enumeration of all input strings up to a length bound through the real Earley parser, independent fixpoint recogniser as oracle",
-   text=BOUNDED + "Real EarleyParser.parse / ISLaSolver.parse on EVERY string up to length 4 (quick) / 6 (thorough) over the alphabet abstraction of 10 grammars "
+   text=BOUNDED + "Real EarleyParser.parse / ISLaSolver.parse on EVERY string up to length 4 (quick) / 6 (thorough) over the alphabet abstraction of 11 grammars "
         "(nullable chains, left/right recursion, ambiguity, multi-character terminals, multi-alternative and recursive start symbols, non-start entry); "
-        "CrossHair's 'Confirmed over all paths' = exhaustive within the bound. Membership vs an independent recogniser; trees validated and must spell the input.",
+        "CrossHair's 'Confirmed over all paths' = exhaustive within the bound. Membership vs an independent recogniser; trees validated and must spell the input; parse from every nonterminal; parse_on followed by parse on one parser object.",
    note="Trusted: recogniser + tree validator in the harness; alphabet abstraction (parser compares characters by == only). [decoder] use of the engine: after the input is realised the parser runs natively. Outside: longer strings, other grammars.",
    design="§3 C10"),
  "C16": dict(level="other", technique="CrossHair (z3): symbolic trie-key codec with unbounded child indices; solver-driven exhaustive enumeration of bounded trees, every tree operation checked against an independent traversal",
    text=BOUNDED + "(1) path_to_trie_key/trie_key_to_path on symbolic paths (length <= 3/5, unbounded indices): round trip, prefix preservation, alphabet. "
-        "(2) every (open or closed) tree decodable from <= 6/8 symbolic choices, every replace_path/substitute/expand_one_step on it (pairs of operations for smaller trees), "
+        "(2) every (open or closed) tree decodable from <= 6/8 symbolic choices, every replace_path (also with retain_id)/substitute (one and two keys)/expand_one_step on it (pairs of operations for smaller trees), "
         "a node with 27 and with 40 children: string, openness flags, paths/get_subtree/find_node/trie/sub-tries, structural equality vs hash, locality of replace_path.",
    note="Trusted: reference traversal in the harness. [decoder] for (2). Outside: larger trees, longer sequences, k_paths caches. Known finding: trie alphabet (children >= 28).",
    design="§3 C16"),
@@ -61,10 +61,10 @@ CHECKS = {
    note="Trusted: checks/refsem.py. [decoder]. Known findings: numeric-quantifier strategy on open trees; unbound nested nonterminals of match expressions.",
    design="§3 C06"),
  "C08": dict(level="translation_validation", technique="translation validation: SMT (z3) equivalence of the first-order encodings of parse_isla(simplified text) and parse_isla(hand-expanded core text) over all tree structures",
-   text="Translation validation: ~80 (simplified, hand-expanded core) pairs generated from paired templates that follow the 'Simplified Syntax' section rule by rule (omitted `in start` / names, "
-        "free-nonterminal closure over 18 body shapes, XPath child/index (positions 1..12)/descendant axes and chains, prefix/infix SMT with precedence and negative literals, implies/iff/xor); "
-        "both sides are parsed by the real parser and z3 proves them equivalent for all trees; a rejected documented form is a violation.",
-   note="Trusted: the hand-expanded core forms, FOL encoder, z3. Known findings: closure pushed into conjunctions (differs only on empty quantifier domains); descendant axis under an existential rejected.",
+   text="Translation validation: ~105 (simplified, hand-expanded core) pairs generated from paired templates that follow the 'Simplified Syntax' section rule by rule (omitted `in start` / names, "
+        "free-nonterminal closure over 18 body shapes, XPath child/index (positions 1..12)/descendant axes and chains, prefix/infix SMT with precedence and negative literals, implies/iff/xor, several XPath expressions on one variable, fresh-name interplay between XPath variables / free nonterminals / unnamed quantifiers / const declarations, name reuse across sibling scopes); "
+        "both sides are parsed by the real parser and z3 proves them equivalent for all trees; a rejected documented form and a translation that re-binds a variable inside its own scope are violations.",
+   note="Trusted: the hand-expanded core forms, FOL encoder, z3. Known findings (12, KNOWN_FINDINGS.txt): closure pushed into conjunctions, descendant axis under an existential, unnamed quantifiers sharing fresh variables, variables resolved by name only, two XPath expressions through one child.",
    design="§3 C08"),
  "C12": dict(level="other", technique="CrossHair (z3): solver-driven exhaustive enumeration of bounded input trees; real fuzzer/mutator with the random module replaced by every periodic draw stream",
    text=BOUNDED + "Real GrammarFuzzer/GrammarCoverageFuzzer.expand_tree and Mutator.replace_subtree_randomly/generalize_subtree/swap_subtrees/mutate on every tree decodable from <= 4/6 choices over 4 grammars "
